@@ -6,6 +6,11 @@ CONSTANT MaxB
 Pp  == [k |-> "P", ch |-> << [w |-> "r", a |-> <<"t">>] >>, lvl |-> 0, how |-> "", num |-> "", sty |-> 0, tb |-> NoTbl]
 Tb(mp) == [k |-> "TBL", ch |-> <<>>, lvl |-> 0, how |-> "", num |-> "", sty |-> 0,
            tb |-> [rows |-> 1, cols |-> 1, hm |-> <<>>, vm |-> <<>>, mp |-> mp, rc |-> <<>>]]
+Br(k, how) == [k |-> k, ch |-> <<>>, lvl |-> 0, how |-> how, num |-> "", sty |-> 0, tb |-> NoTbl]
 Sh == {Pp, Tb(<<>>), Tb(<< <<1, 1>> >>)}
+\* with a block-level content control
+ShW == {Pp, Tb(<<>>), Br("WO", "sdt"), Br("WC", "")}
+ImplDocsW == {d \in {[fmt |-> "docx", body |-> b, hdr |-> 0, ftr |-> 0, sheet |-> <<>>] : b \in UNION {[1..n -> ShW] : n \in 1..(MaxB + 1)}} :
+                Balanced(d.body)}
 ImplDocs == {[fmt |-> "docx", body |-> b, hdr |-> 0, ftr |-> 0, sheet |-> <<>>] : b \in UNION {[1..n -> Sh] : n \in 1..MaxB}}
 =============================================================================
